@@ -34,7 +34,7 @@ func init() {
 			{Name: "S-AUDIT/pair-udp", Weight: 2, Run: func(e *Env) { c04RunOpt(e, TrUDP, true, true) }},
 			{Name: "S-AUDIT/pair-tcp", Weight: 1, Run: func(e *Env) { c04RunOpt(e, TrTCP, false, true) }},
 		},
-		Quick:    40000,
+		Quick:    150000,
 		Thorough: 2000000,
 		Assume: []string{
 			"the audit happens after every call has returned, every context has ended and simulated time has passed the largest deadline of the run (request deadlines, 5 s block-wise timeout, 247 s exchange lifetime) with housekeeping ticks in between",
